@@ -208,7 +208,10 @@ impl Gen {
                 json!({"op": "link", "n": self.pick_node(&[]), "p": self.pick_node(&["dir"]), "name": name, "nk": nk})
             }
             "unlink" | "rmdir" => {
-                let (name, nk) = self.name(80, hostile_p);
+                let (mut name, nk) = self.name(80, hostile_p);
+                if op == "rmdir" && nk == "plain" && self.rng.chance(2, 3) {
+                    name = json!(*self.rng.pick(&["d2", "d3", "d1", "x", "y", "z"]));
+                }
                 json!({"op": op, "p": self.pick_node(&["dir"]), "name": name, "nk": nk})
             }
             "rename" => {
